@@ -147,6 +147,9 @@ func (server *httpServer) handleHttpRequest(conn net.Conn) string {
 	conn.SetReadDeadline(time.Now().Add(httpReadTimeout))
 	section := 0
 	scanner := bufio.NewScanner(conn)
+	// A body without CRLF is a single token; allow it to be as long as the
+	// maximum content length instead of bufio.MaxScanTokenSize (64KB)
+	scanner.Buffer(nil, maxContentLength+1)
 	scanner.Split(func(data []byte, atEOF bool) (int, []byte, error) {
 		found := bytes.Index(data, []byte(crlf))
 		if found >= 0 {
